@@ -171,6 +171,16 @@ CLAIMS = {
         "Trusted: rustc / driver / engine; std iterators are finite over finite collections; NodeStatus / NodeType variant tables from the type-checked program.",
         "static analysis: call-graph cycle detection, CFG SCCs, MIR edge dominance and provenance, symbolic evaluation with exhaustive case enumeration",
         "DESIGN.md §3 C19"),
+    "C20": (
+        "R1 a chunk enters an L0 group only on an edge implying level == 0 and a level-N group only through a test implying level == N (both backends, closure "
+        "predicates and branch edges normalised); R2 candidate selection iterates the chunk map (unique keys), never the time index, and the path push cannot "
+        "repeat without advancing the chunk iterator; R3 the only stores to a chunk level in the library are 0 at registration and max(source levels)+1 at the "
+        "swap (C03.R4's arithmetic rule plus a who-may-store enumeration over all level assignments / chunk_levels inserts); R4 a level-N merge is dominated by "
+        "group.len() >= 2, the level pass is for 1..=max_levels, L0 groups need len >= min_count. Convergence itself (a numeric measure over configurations) is "
+        "not decided.",
+        "Trusted: rustc / driver / engine; HashMap / DashMap iteration visits each key once.",
+        "static analysis: MIR comparison-edge dominance, closure predicate normalisation, iterator-source provenance, who-may-store enumeration",
+        "DESIGN.md §3 C20"),
 }
 
 NOT_YET = "rule set under construction in this round; see DESIGN.md §3 for the planned static rules"
